@@ -158,6 +158,10 @@ func (*BinaryBoolExprNode) GetType() NodeType {
 }
 
 func (node *BinaryBoolExprNode) EvalBool(s Symbols) bool {
+	// a null operand makes = false and != true, as it does for every other type
+	if symbolNode, ok := node.left.(SymbolNode); ok && s.IsNil(symbolNode.Symbol()) {
+		return node.op == BinaryOpNEQ
+	}
 	leftResult := node.left.EvalBool(s)
 	rightResult := node.right.EvalBool(s)
 
